@@ -366,19 +366,25 @@ class ScenarioGenerator:
         # or >= 1 OS agnostic privesc
         # This ensures we can make it possible to get ROOT access on a
         # host, independendent of the exploit the host is vulnerable too
-        if num_privesc < len(self.os):
-            os_choices = [None]
-            os_choices.extend(
-                list(np.random.choice(possible_os, num_privesc-1))
-            )
-        else:
-            while True:
+        # Each (process, OS) pair can only be used by a single privesc, so an
+        # OS (or None) cannot be chosen more times than there are processes
+        max_os_count = len(self.processes)
+        while True:
+            if num_privesc < len(self.os):
+                os_choices = [None]
+                os_choices.extend(
+                    list(np.random.choice(possible_os, num_privesc-1))
+                )
+            else:
                 os_choices = list(
                     np.random.choice(possible_os, num_privesc)
                 )
-                if None in os_choices \
-                   or all([os in os_choices for os in self.os]):
-                    break
+                if not (None in os_choices
+                        or all([os in os_choices for os in self.os])):
+                    continue
+            if all([os_choices.count(os) <= max_os_count
+                    for os in possible_os]):
+                break
 
         # we create one exploit per service
         privescs_added = 0
